@@ -261,7 +261,8 @@ def _web_processor_faults(e0, e1, stage):
     """stage 0: the first two requests of a visit answer a0, a1.  stage 1: robots.txt checking is on - the first two requests belong
     to the robots.txt fetch (a cross-origin redirect of robots.txt included), later ones answer 200."""
     kinds = ['neterr', 'proto', 'ssl', 'refused', 'dns', (500, None), (200, None), (301, 'http://['), (301, None), (302, 'http://a.example/\x00'),
-             (301, 'https://www.other.example/robots.txt'), (404, None), (301, 'http://[::1/next'), (303, '//[fe80::1/x')]
+             (301, 'https://www.other.example/robots.txt'), (404, None), (301, 'http://[::1/next'), (303, '//[fe80::1/x'),
+             (200, None, (), 'neterr'), (200, None, (), 'proto')]
     a0, a1 = pick(kinds, e0), pick(kinds, e1)
 
     def answer(k, request):
@@ -284,6 +285,8 @@ def _web_processor_faults(e0, e1, stage):
         item = ItemSession(env.app, rec)
     run(env.proc.process(item))
     hit('processed')
+    if client.held != 0:
+        return False                              # a session was left holding its connection: six of those per host stall the crawl
     return item.is_processed and env.table.rows['http://a.example/'].status in (Status.done, Status.error, Status.skipped)
 
 
@@ -348,13 +351,14 @@ HARNESSES = [
              'wpull/scraper/base.py:DemuxDocumentScraper.scrape_info', 'wpull/document/util.py:detect_response_encoding'],
       doc='18 hostile robots.txt / CSS / JavaScript documents x 12 declared charsets (incl. utf-16, an unknown codec and non-text codecs such as hex / zlib / base64) through robots.txt '
           'loading, CSSScraper, JavaScriptScraper and the demultiplexing scraper: success or a per-URL error kind'),
-    H('web_processor_faults', '_web_processor_faults', 'e0: int, e1: int, stage: int', pre=['0 <= e0 <= 13 and 0 <= e1 <= 13'],
-      parts=[{'tag': 'plain', 'fix': {'stage': '0'}}] + [{'tag': 'robots_%d' % lo, 'fix': {'stage': '1'}, 'pre': ['%d <= e0 <= %d' % (lo, lo + 1)]} for lo in range(0, 14, 2)],
+    H('web_processor_faults', '_web_processor_faults', 'e0: int, e1: int, stage: int', pre=['0 <= e0 <= 15 and 0 <= e1 <= 15'],
+      parts=[{'tag': 'plain', 'fix': {'stage': '0'}}] + [{'tag': 'robots_%d' % lo, 'fix': {'stage': '1'}, 'pre': ['%d <= e0 <= %d' % (lo, lo + 1)]} for lo in range(0, 16, 2)],
       timeout={'quick': 250, 'thorough': 600}, samples=[(0, 0, 0), (7, 6, 0), (9, 1, 0), (10, 6, 1), (11, 6, 1)], need=['processed'],
       funcs=['wpull/processor/web.py:WebProcessorSession.process', 'wpull/processor/web.py:WebProcessorSession._fetch_one', 'wpull/protocol/http/web.py:WebSession._process_redirect'],
       doc='every pair of outcomes (5 error kinds, 5xx, 404, 200, redirect to an unparsable / missing / control-character / unterminated-IPv6 / '
           'cross-origin Location) of the first two requests of a visit - without and with robots.txt checking (the pair then hits the '
-          'robots.txt fetch): WebProcessorSession.process returns normally with the item in a final or error state'),
+          'robots.txt fetch), errors while a body is downloaded included: WebProcessorSession.process returns normally with the item in a '
+          'final or error state and no session is left holding a connection'),
 ]
 for _h in HARNESSES:
     if isinstance(_h.parts, dict):
